@@ -737,3 +737,16 @@ def fx_cachedview(fx):
         return False
     return nb >= 5 and no >= 3 and _fires(c, "BadBuf::bad_append") and _fires(c, "BadBuf::bad_reserve") and \
         _fires(c, "BadBuf::bad_via_helper") and not _fires(c, "BadBuf::set") and not _fires(c, "cviewfx::OkBuf")
+
+
+def fx_markcount(fx):
+    from rules import parallel
+    c = _ctx()
+    nb = parallel.companion_built_per_entry(c, fx, "src/lib.rs", "markfx::BadMap", "cache", only=lambda fid: "markfx::BadMap" in fid)
+    no = parallel.companion_built_per_entry(c, fx, "src/lib.rs", "markfx::OkMap", "cache", only=lambda fid: "markfx::OkMap" in fid)
+    mb = parallel.deleted_count_marks(c, fx, "src/lib.rs", "markfx::BadMap", "dead", ".markfx::Ent::link", "L",
+                                      only=lambda fid: "markfx::BadMap" in fid)
+    mo = parallel.deleted_count_marks(c, fx, "src/lib.rs", "markfx::OkMap", "dead", ".markfx::Ent::link", "L",
+                                      only=lambda fid: "markfx::OkMap" in fid)
+    return nb == 1 and no == 1 and mb == 1 and mo == 2 and _fires(c, "BadMap::<L>::bad_build") and _fires(c, "BadMap::<L>::bad_free") \
+        and not _fires(c, "markfx::OkMap")
